@@ -136,14 +136,26 @@ impl Streams {
             .nth(self.seq)
             .expect("Streams::open: too many streams");
         let channels = self
-            .register(id, config)
+            .insert(id, config)
             .expect("Streams::open: stream was already open");
 
         (id, channels)
     }
 
-    /// Register an open stream.
+    /// Register a stream opened by the remote peer.
+    ///
+    /// The remote may only open streams in its own half of the stream id space. An id
+    /// that carries *our* link direction is refused, since it would collide with a stream
+    /// that we open later.
     fn register(&mut self, stream: StreamId, config: ChannelsConfig) -> Option<worker::Channels> {
+        if stream.link() == self.link {
+            return None;
+        }
+        self.insert(stream, config)
+    }
+
+    /// Insert an open stream.
+    fn insert(&mut self, stream: StreamId, config: ChannelsConfig) -> Option<worker::Channels> {
         let (wire, worker) = worker::Channels::pair(config)
             .expect("Streams::register: fatal: unable to create channels");
 
@@ -772,7 +784,7 @@ where
                                     ChannelsConfig::new(FETCH_TIMEOUT)
                                         .with_reader_limit(reader_limit),
                                 ) else {
-                                    log::warn!(target: "wire", "Peer attempted to open already-open stream stream {stream}");
+                                    log::warn!(target: "wire", "Peer attempted to open invalid or already-open stream {stream}");
                                     continue;
                                 };
 
